@@ -31,8 +31,6 @@ instance : IntCast Float := ⟨Float.ofInt⟩
 generates); otherwise the floor-based approximation, which then shows up as a mismatch. -/
 def ratSqrt (q : Rat) : Rat := ((Nat.sqrt q.num.toNat : Nat) : Rat) / ((Nat.sqrt q.den : Nat) : Rat)
 
-/-- Go's `int(x)` / the truncation inside `math.Mod`: toward zero. -/
-def ratTrunc (q : Rat) : Int := q.num.tdiv q.den
 
 def floatTrunc (x : Float) : Int := if x < 0 then -((-x).floor.toUInt64.toNat : Int) else (x.floor.toUInt64.toNat : Int)
 
